@@ -1,6 +1,6 @@
 (* C17 — property theorems only: each restates the full statement and is closed by the lemma proved in Proofs/. *)
 From Coq Require Import ZArith List Bool.
-From NPS Require Import ListAux PySlice NumpySem Scatter BuildIdx XorBroadcast View Index Assign Reduce Scan RaOps Heap Hash HashRun BitArr RLE RLEOps RLE2d DataClass RowsSpec AssignSpec MapSpec Denote RLEMisc RL2Proof RL2Col RL2Ravel RL2Elem RL2Argmax MatrixDecode.
+From NPS Require Import ListAux PySlice NumpySem Scatter BuildIdx XorBroadcast View Index Assign Reduce Scan RaOps Heap Hash HashRun BitArr RLE RLEOps RLE2d DataClass RowsSpec AssignSpec MapSpec Denote RLEMisc BinaryProof RL2Proof RL2Col RL2Ravel RL2Elem RL2Argmax MatrixDecode ColProof RL2ColSum RL2ColCounts.
 Import ListNotations.
 Open Scope Z_scope.
 
@@ -52,7 +52,7 @@ Print Assumptions C17_rl2_sum_correct.
 
 Theorem C17_rl2_max_argmax_correct :
   forall rows : list (list Z * list Z),
-       Forall (fun p : list Z * list Z => BinaryProof.canon Z (fst p) (snd p) /\ fst p <> []) rows ->
+       Forall (fun p : list Z * list Z => canon Z (fst p) (snd p) /\ fst p <> []) rows ->
        rl2_max (of_runs rows) = map zmax_list (rl2_decode (of_runs rows)) /\
        rl2_argmax (of_runs rows) = argmax_rows (rl2_decode (of_runs rows)).
 Proof. exact rl2_max_argmax_correct. Qed.
@@ -60,7 +60,7 @@ Print Assumptions C17_rl2_max_argmax_correct.
 
 Theorem C17_rl2_col_correct :
   forall (rows : list (list Z * list Z)) (j : Z),
-       Forall (fun p : list Z * list Z => BinaryProof.canon Z (fst p) (snd p)) rows ->
+       Forall (fun p : list Z * list Z => canon Z (fst p) (snd p)) rows ->
        rl2_col (of_runs rows) j = spec_col j (rl2_decode (of_runs rows)).
 Proof. exact rl2_col_correct. Qed.
 Print Assumptions C17_rl2_col_correct.
@@ -68,14 +68,14 @@ Print Assumptions C17_rl2_col_correct.
 Theorem C17_rl2_ravel_correct :
   forall rows : list (list Z * list Z),
        Forall (fun p : list Z * list Z => length (snd p) = length (fst p)) rows ->
-       rl2_ravel (of_runs rows) = (BinaryProof.evs (concat (map fst rows)), concat (map snd rows)) /\
+       rl2_ravel (of_runs rows) = (evs (concat (map fst rows)), concat (map snd rows)) /\
        decode Z (rl2_ravel (of_runs rows)) = concat (rl2_decode (of_runs rows)).
 Proof. exact rl2_ravel_correct. Qed.
 Print Assumptions C17_rl2_ravel_correct.
 
 Theorem C17_rl2_elem_correct :
   forall (rows : list (list Z * list Z)) (i j : Z),
-       Forall (fun p : list Z * list Z => BinaryProof.canon Z (fst p) (snd p) /\ fst p <> []) rows ->
+       Forall (fun p : list Z * list Z => canon Z (fst p) (snd p) /\ fst p <> []) rows ->
        match np_item rows i with
        | Ok (ls, vs) =>
            let n := zsum ls in
@@ -86,3 +86,35 @@ Theorem C17_rl2_elem_correct :
        end.
 Proof. exact rl2_elem_correct. Qed.
 Print Assumptions C17_rl2_elem_correct.
+
+Theorem C17_rl2_col_sum_correct :
+  forall rows : list (list Z * list Z),
+       rows <> [] ->
+       Forall (fun p : list Z * list Z => canon Z (fst p) (snd p)) rows ->
+       let dense := rl2_decode (of_runs rows) in
+       decode Z (rl2_col_sum (of_runs rows)) =
+       map (fun j : Z => zsum (map (fun r : list Z => nth (Z.to_nat j) r 0) dense))
+         (ap 0 (fold_left Z.max (map zlen dense) 0) 1).
+Proof. exact rl2_col_sum_correct. Qed.
+Print Assumptions C17_rl2_col_sum_correct.
+
+Theorem C17_rl2_col_sum_matrix_correct :
+  forall (n : Z) (rows : list (list Z * list Z)),
+       rows <> [] ->
+       1 <= n ->
+       Forall (fun p : list Z * list Z => canon Z (fst p) (snd p) /\ zsum (fst p) = n) rows ->
+       let dense := rl2_decode (of_matrix_runs n rows) in
+       decode Z (rl2_col_sum (of_matrix_runs n rows)) =
+       map (fun j : Z => zsum (map (fun r : list Z => nth (Z.to_nat j) r 0) dense)) (ap 0 n 1).
+Proof. exact rl2_col_sum_matrix_correct. Qed.
+Print Assumptions C17_rl2_col_sum_matrix_correct.
+
+Theorem C17_rl2_col_counts_correct :
+  forall x : rl2,
+       let lens := map (fun ev : list Z => last ev 0) (r_idx x) in
+       lens <> [] ->
+       all_nonneg lens ->
+       decode Z (rl2_col_counts x) =
+       map (fun j : Z => cnt (fun l : Z => j <? l) lens) (ap 0 (fold_left Z.max lens 0) 1).
+Proof. exact rl2_col_counts_correct. Qed.
+Print Assumptions C17_rl2_col_counts_correct.
